@@ -257,6 +257,8 @@ def calib_cases(draw):
         "wq": draw(st.sampled_from(["qint8", "qfloat8_e4m3fn", "qint4"])),
         "batches": draw(st.lists(st.sampled_from(["zeros", "const", "tiny", "huge", "normal", "single"]), min_size=1, max_size=3)),
         "model": draw(st.sampled_from(["linear", "mlp", "mlp-inplace", "mlp-inplace", "ln-linear"])),
+        # the batches reach the model as float tensors, or already quantized by an upstream stage with ANOTHER 8-bit qtype
+        "qin": draw(st.sampled_from([None, None, "other"])),
         "seed": draw(st.integers(0, 2**20)),
         "inf": draw(st.sampled_from([5, 8, 16, 32])),
         "no_grad": draw(st.booleans()),
@@ -313,6 +315,17 @@ def exec_calib(case):
         return out.fail(f"{tag}/quantize-raises:{r.type}", r.text)
     batches = [batch_of(b, (3, n), dtype, g) for b in case["batches"]]
     probe = batch_of("normal", (3, n), dtype, g)
+    qin = None
+    if case.get("qin") and aq is not None and case["model"] != "ln-linear":
+        names8 = sorted(O.QT8)
+        qin = O.QT8[names8[(names8.index(aq.name) + 1 + case["seed"] % 2) % 3]]
+        out.klass.append("quantized-input-of-another-qtype")
+
+    def feed(b):
+        if qin is None:
+            return b
+        s_ = absmax_scale(b, qin)
+        return quantize_activation(b, qin, torch.where(s_ > 0, s_, torch.ones_like(s_)))
     with torch.no_grad():
         if not all(bool(torch.isfinite(twin(b)).all()) for b in batches + [probe]):
             out.discard = True  # the float model itself overflows on this batch: not a statement about quantization
@@ -321,7 +334,7 @@ def exec_calib(case):
     def go():
         with Calibration(streamline=False):
             for b in batches:
-                model(b)
+                model(feed(b))
 
     if case["no_grad"]:
         with torch.no_grad():
@@ -341,7 +354,7 @@ def exec_calib(case):
     for which, inp in [("probe", probe)] + [(b, x) for b, x in zip(case["batches"], batches)]:
         # inference on an ordinary batch, and on the degenerate batches themselves
         with torch.no_grad():
-            y = cut(model, inp)
+            y = cut(lambda: model(feed(inp)))
         if isinstance(y, Raised):
             return out.fail(f"{tag}/inference-raises:{y.type}", y.text)
         yd = y.dequantize() if isinstance(y, QTensor) else y
